@@ -147,10 +147,11 @@ Stake        == \E u \in Users, a \in StakeAmts, k \in RcvKinds, f \in FailSeqs 
                   IF SamePrefix
                   THEN \E tn \in {"none", "false", "true"} : Do([StakeCall(u, a, k, f) EXCEPT !.to_native = tn])
                   ELSE Do(StakeCall(u, a, k, f))
-\* expected_mint_amount exactly met / one above; minting to another protocol-chain account
+\* expected_mint_amount one below (a guard, not the amount minted) / exactly met / one above; minting to another protocol-chain account
 ExactMint(a) == LET sweep == w.c.L = 0 /\ w.c.N # 0 IN MintAmount(IF sweep THEN 0 ELSE w.c.N, w.c.L, a)
 StakeVariants == \/ /\ "slippage" \in Extras
-                    /\ \E u \in Users, a \in StakeAmts, d \in {0, 1} : Do(StakeCallX(u, a, "self", << >>, ExactMint(a) + d, ""))
+                    /\ \E u \in Users, a \in StakeAmts, d \in {-1, 0, 1} :
+                          ExactMint(a) + d >= 0 /\ Do(StakeCallX(u, a, "self", << >>, ExactMint(a) + d, ""))
                  \/ /\ "mintto" \in Extras
                     /\ \E u \in Users, a \in StakeAmts, o \in (Users \cup {"c1", "u1"}) : o # u /\ Do(StakeCallX(u, a, "other", << >>, NoAmt, o))
 Unstake      == \E u \in Users, a \in UnstakeAmts : Bal(w.bank, u, LstD) >= a /\ Do(UnstakeCall(u, a))
@@ -222,7 +223,10 @@ Relay        == \E p \in w.ibc.fly, o \in Outcomes : Do(AckCall(p.seq, o))
 Recover_     == \E u \in Principals, rcv \in {""} \cup {NatOf(x) : x \in Users}, f \in FailSeqs :
                   (\E p \in w.c.pk : Refundable(p)) /\ Do(RecoverCall(u, rcv, f))
 \* admin-selected recovery: one packet, the same packet listed twice (counts once), and two packets
-Forced       == AdminOps /\ \E p \in w.c.pk, u \in Principals :
+\* (and an EMPTY selection, with and without tracked packets: refused, never an index into nothing)
+Forced       == AdminOps /\
+                \/ \E u \in Principals : Do(ForcedCall(u, << >>, ""))
+                \/ \E p \in w.c.pk, u \in Principals :
                   /\ Refundable(p)
                   /\ \/ \E sel \in {<<p.seq>>, <<p.seq, p.seq>>} :
                           Do(ForcedCall(u, sel, IF p.rcv = Staker THEN "" ELSE p.rcv))
